@@ -37,7 +37,9 @@ def run(ctx):
     res.assumptions = [
         "query type NULL throughout (the name construction does not depend on the query type)",
         "server started with -c (check_ip off), password set, 10.9.0.1/24; slot choice is steered by marking lower slots busy",
-        "the upstream codec is switched by calling user_switch_codec()/assigning dataenc (what the 'S' handshake does on both ends)",
+        "the upstream codec is switched by calling user_switch_codec()/assigning dataenc (what the 'S' handshake does on both ends); "
+        "Base32 sessions do not switch (the real client sends no 'S' then) and so depend on the version handshake resetting a "
+        "slot that earlier sessions of the same process left on another codec",
         "login: when L - domain length < 39 the 19-byte login message cannot fit one name; the property only promises a "
         "non-empty, correctly reported prefix, so there the check demands exactly that (server extracts the reported "
         "prefix) and opens the session administratively; counted in coverage.login_prefix_only",
